@@ -132,6 +132,12 @@ func (r *Reporter) formatPrettyError(violation Violation) string {
 		builder.WriteString("   = help: ")
 		builder.WriteString(codes.GetDocumentationURL(violation.GetCode()))
 		builder.WriteString("\n")
+	} else {
+		// No source available (unreadable file, position remapped by a //line directive):
+		// the documentation link is still due
+		builder.WriteString("   = help: ")
+		builder.WriteString(codes.GetDocumentationURL(violation.GetCode()))
+		builder.WriteString("\n")
 	}
 
 	return builder.String()
